@@ -417,6 +417,51 @@ def r4_recording_robust(ctx, sym):
             t2 = frozenset(p for p, a in bound.items() if is_tainted(a))
             if t2:
                 work.append((ce, t2, d + 1))
+    # the feedback constructor executed abstractly for the message texts a student exception can have: empty
+    # (`raise ValueError()`, bare assert, sys.exit()), one character, ordinary, and a failing __str__
+    from .. import symexec
+    from ..fdeval import Obj, Raised as _Raised
+    for text in ('', 'x', 'division by zero', None):
+        rec = symexec.Recorder()
+        exc = Obj('student-exception', exc_kind='ValueError')
+
+        def _str(o='', *a):
+            if o is exc:
+                if text is None:
+                    raise _Raised('ValueError', 'broken __str__')
+                return text
+            return str(o) if isinstance(o, (str, int, float, bool, type(None))) else 'str(%r)' % (o,)
+        fmt = Obj('format')
+        symexec.method(fmt, 'exception', lambda t: t)
+        symexec.method(fmt, 'traceback', lambda t: t)
+        report = Obj('report', format=fmt, submission=Obj('submission'))
+        tb = Obj('traceback')
+        symexec.method(tb, 'build_traceback', lambda: ['frame'])
+        symexec.method(tb, 'format_traceback', lambda *a: 'TB')
+        me = symexec.self_obj(fmod, 'runtime_error', constant_fields={'suggestion': ''})
+        sup = Obj('super')
+        symexec.method(sup, '__init__', rec.stub('super().__init__'))
+        fd = symexec.new_fd(sym, fmod, calls={
+            'str': _str, 'get_exception_name': lambda e, *a: 'ValueError', 'type': lambda o: 'type-of-student-exception',
+            'Location': rec.stub('Location', fn=lambda *a, **k: Obj('location')),
+            'format_contexts': lambda *a, **k: 'context text', 'wrap_fields': lambda fmt_, fields: dict(fields),
+            'super': lambda *a: sup}, extra={'EXCEPTION_FF_MAP': {}, 'MAIN_REPORT': report})
+        _, raised = symexec.run(fd, rt_init, [exc, ['context'], tb, 3], {'report': report}, bound_self=me,
+                                what='runtime_error.__init__')
+        tag = '[str(exception)=%s]' % ('raises' if text is None else repr(text))
+        built = rec.named('super().__init__')
+        fields = built[0][2].get('fields') if len(built) == 1 else None
+        ok = raised is None and isinstance(fields, dict) and isinstance(fields.get('exception_message'), str)
+        if ok and text:
+            ok = fields['exception_message'].lower() == text.lower()
+        ctx.check(ok, 'R4', 'runtime_error.__init__:builds' + tag, fmod, rt_init,
+                  "for a student exception whose message text is %s the feedback constructor %s" % (
+                      'unavailable (failing __str__)' if text is None else repr(text),
+                      'raises %s (%s)' % (raised.kind, raised.detail) if raised is not None else
+                      'does not hand one `exception_message` text (the student\'s, up to case) to Feedback.__init__: %r'
+                      % (fields.get('exception_message') if isinstance(fields, dict) else fields,)),
+                  "`raise ValueError()` / bare `assert` / `sys.exit()` in student code: run() raises into the "
+                  "instructor script while recording the failure; no runtime feedback is attached")
     ctx.floor('R4', 'functions in the taint closure', n_fns, 3)
     ctx.floor('R4', 'conversion sites of the exception object', n_conv, 1)
     # templates
